@@ -21,14 +21,15 @@ TECHNIQUE = 'abstract interpretation of decl.c with scripted token cursor -> per
 # ------------------------------------------------------------------ declaration alphabet
 
 class D:
-    __slots__ = ('kind', 'scope', 'sc', 'inline', 'init', 'asm', 'ty', 'nofs', 'fty')
-    def __init__(self, kind, scope, sc, inline=False, init=False, asm=False, ty=('int', 0), nofs=False, fty=None):
+    __slots__ = ('kind', 'scope', 'sc', 'inline', 'init', 'asm', 'ty', 'nofs', 'fty', 'noret')
+    def __init__(self, kind, scope, sc, inline=False, init=False, asm=False, ty=('int', 0), nofs=False, fty=None, noret=False):
+        self.noret = noret    # _Noreturn: has no influence on linkage or on whether the definition is an inline definition
         self.fty = fty    # (return type class, [parameter type classes]) of a function declaration; None: int(void)
         self.kind, self.scope, self.sc, self.inline, self.init, self.asm = kind, scope, frozenset(sc), inline, init, asm
         self.ty = ty      # (type name, qualifiers) of an object declaration
         self.nofs = nofs  # function type that comes from a typedef name: the declarator has no parameter list of its own
     def __repr__(self):
-        s = ' '.join(sorted(self.sc)) + (' inline' if self.inline else '')
+        s = ' '.join(sorted(self.sc)) + (' inline' if self.inline else '') + (' _Noreturn' if self.noret else '')
         body = (' {...}' if self.kind == 'func' else ' = 1') if self.init else ''
         return '[%s] %s %s x%s%s' % (self.scope, s.strip() or '-', 'int' + ('(void)' if self.kind == 'func' else ''), ' asm' if self.asm else '', body)
     def key(self):
@@ -210,7 +211,7 @@ class DeclWorld:
 
 def decl_models(prog, dw_holder):
     SC = {n: ev(prog, n) for n in ('SCNONE', 'SCEXTERN', 'SCSTATIC', 'SCTHREADLOCAL')}
-    FS = {n: ev(prog, n) for n in ('FUNCNONE', 'FUNCINLINE')}
+    FS = {n: ev(prog, n) for n in ('FUNCNONE', 'FUNCINLINE', 'FUNCNORETURN')}
     T = {n: ev(prog, n) for n in ('TSEMICOLON', 'TASSIGN', 'T__ASM__', 'TCOMMA', 'TLBRACE')}
     def cur(it): return it.user['cur']
     def staticassert(it, a, e): return 0
@@ -223,7 +224,7 @@ def decl_models(prog, dw_holder):
         if 'static' in d.sc: v |= SC['SCSTATIC']
         if 'tl' in d.sc: v |= SC['SCTHREADLOCAL']
         it.assign(sc.obj, sc.path, v)
-        it.assign(fs.obj, fs.path, FS['FUNCINLINE'] if d.inline else 0)
+        it.assign(fs.obj, fs.path, (FS['FUNCINLINE'] if d.inline else 0) | (FS['FUNCNORETURN'] if getattr(d, 'noret', False) else 0))
         it.assign(align.obj, align.path, 0)
         return StructVal({('type',): dw.w.t(d.ty[0]), ('qual',): d.ty[1], ('expr',): None})
     def declarator(it, a, e):
@@ -694,6 +695,30 @@ def rule_extern_hidden(chk, prog, tier):
     r.exhaustive = False
 
 
+def rule_noreturn_neutral(chk, prog, tier):
+    r = chk.rule('C09.i', '_Noreturn is a function specifier without influence on linkage and on the inline-definition rule (6.7.4p7 speaks of `inline` and `extern` only): every history of function declarations gives the same diagnostics, '
+                 'bindings and emitted definitions with _Noreturn added to its declarations as without', floor=60, oracle='C11 6.7.4p7-8')
+    models = decl_models(prog, None)
+    decl_fn = prog.require_func('decl', 'decl.c'); flush_fn = prog.require_func('emittentativedefns', 'decl.c')
+    A = [d for d in alphabet('func') if d.scope == 'file']
+    def shape(steps, final):
+        out = []
+        for res, evs, bind in steps:
+            out.append((res.split(':')[0], sorted((e[0], e[1] if e[0] == 'emitfunc' else None) for e in evs if e[0] == 'emitfunc'), (bind['linkage'], bind['kind']) if bind else None))
+        return out
+    hists = [(a,) for a in A] + [(a, b) for a in A for b in A]
+    for hist in hists:
+        plain = list(hist)
+        base = run_history(prog, models, plain, decl_fn, flush_fn)
+        for which in ('all', 'inline-only'):
+            marked = [D(d.kind, d.scope, d.sc, d.inline, d.init, noret=(which == 'all' or d.inline)) for d in hist]
+            if which == 'inline-only' and not any(d.inline for d in hist): continue
+            got = run_history(prog, models, marked, decl_fn, flush_fn)
+            key = 'noreturn-neutral:%s:%s' % (which, '; '.join(repr(d) for d in hist))
+            r.instance(shape(base[0], base[1]) == shape(got[0], got[1]), key, 'decl.c:decl', 'with _Noreturn: %s; without: %s' % (shape(got[0], got[1]), shape(base[0], base[1])))
+    r.exhaustive = False
+
+
 def rule_typedef_function(chk, prog, tier):
     r = chk.rule('C09.g', 'a function may be declared, but not defined, through a typedef name of function type: `typedef int F(void); F f;` declares f, `F f { ... }` is diagnosed (and never trips an internal assertion)', floor=4,
                  oracle='C11 6.9.1p2')
@@ -722,5 +747,6 @@ def run(chk, tier):
     chk.guard('C09.d', lambda: rule_flush(chk, prog, tier))
     chk.guard('C09.e', lambda: rule_flush_all(chk, prog, tier))
     chk.guard('C09.h', lambda: rule_extern_hidden(chk, prog, tier))
+    chk.guard('C09.i', lambda: rule_noreturn_neutral(chk, prog, tier))
     chk.guard('C09.f', lambda: rule_redecl_types(chk, prog, tier))
     chk.guard('C09.g', lambda: rule_typedef_function(chk, prog, tier))
